@@ -289,6 +289,14 @@ def judge_json(string: str, kind: str, mode: str, version: str, has_body: bool) 
         doc = strict_loads(body)
     except DuplicateKey as exc:
         where = find_duplicate_path(body, exc.key)
+        if not where:
+            # the strict parser met the repeat before it met a syntax error further on: the line is unparseable first
+            try:
+                json.loads(body)
+            except ValueError as later:
+                pos = getattr(later, 'pos', 0)
+                problems.append(Problem('unparseable', norm_path(path_at(body, pos)), f'{later} near ...{body[max(0, pos - 70) : pos + 50]!r}'))
+                return None, problems
         problems.append(Problem('duplicate-key', norm_path(where) if where else norm_key(exc.key), str(exc)[:300]))
         return None, problems
     except ValueError as exc:
